@@ -88,6 +88,7 @@ neighbour search (modelled by `Geometry.kdDistSq` + filter), IEEE rounding of no
 import inspect
 import itertools
 import json
+import random
 import os
 import types
 from fractions import Fraction
@@ -599,6 +600,70 @@ def gen_history(rng, static, nops, T, offprotocol=False, init=None, few_queries=
                             b=None if b is None else [rs(c) for c in b]))
         elif not few_queries:
             ops.append(dict(k="snap"))
+    ops.append(dict(k="snap"))
+    case["ops"] = ops
+    return case
+
+
+def gen_add_runs(rng, static, T, rounds, init=None, prefix=None):
+    """RUNS of add_positions without any query in between (every mix of the start flag, in particular start=False
+    immediately followed by start=True), and only THEN the queries: the force next to every residue of the run (a
+    residue that was added counts for the very next query), get_point, a snapshot; then removals / a consolidation
+    and the next run.  The random walk itself always queries between two adds, other callers need not."""
+    case = dict(static)
+    L, n, nodes = case["L"], case["n"], case["nodes"]
+    cut = fr(case["cut"])
+    pos = {}
+    if init is None:
+        init = [[g, [rs(c) for c in rand_point(rng, L)]] for g in range(n) if rng.random() < 0.3]
+    for g, p in init:
+        pos[g] = [fr(c) for c in p]
+    case["init"], case["T"] = init, T
+    ops = []
+    for op in (prefix(pos) if prefix is not None else []):
+        ops.append(op)
+        if op["k"] == "add":
+            pos[op["g"]] = [fr(c) for c in op["p"]]
+        elif op["k"] == "remove":
+            for g in op["gs"]:
+                pos.pop(g, None)
+    small = [g for g in range(n) if n <= 200 or g >= n - 60]
+    for _ in range(rounds):
+        free = [g for g in small if g not in pos]
+        rng.shuffle(free)
+        run = free[:rng.randint(2, 5)]
+        if len(run) < 2:
+            victims = rng.sample(sorted(g for g in small if g in pos), min(4, len([g for g in small if g in pos])))
+            for g in victims:
+                ops.append(dict(k="remove", mol=nodes[g][0], gs=[g]))
+                pos.pop(g, None)
+            continue
+        flags = [rng.random() < 0.5 for _ in run]
+        if rng.random() < 0.6:
+            k = rng.randrange(len(run) - 1)
+            flags[k], flags[k + 1] = False, True          # grown residue, then the first residue of the next molecule
+        added = []
+        for g, flag in zip(run, flags):
+            p = rand_point(rng, L)
+            ops.append(dict(k="add", g=g, p=[rs(c) for c in p], start=flag))
+            pos[g] = p
+            added.append(g)
+        probe = rng.choice(small)
+        for g in added:
+            where = near_point(rng, pos[g], L, Fraction(1, 8), cut)
+            ops.append(dict(k="force", p=[rs(c) for c in where], g=probe, excl=[probe] if probe not in added else []))
+            if rng.random() < 0.3:
+                where = near_point(rng, pos[g], L, Fraction(0), Fraction(3, 32))
+                ops.append(dict(k="force", p=[rs(c) for c in where], g=probe, excl=[]))
+            ops.append(dict(k="get", g=g))
+        ops.append(dict(k="snap"))
+        roll = rng.random()
+        if roll < 0.3:
+            ops.append(dict(k="concat"))
+        elif roll < 0.7:
+            g = rng.choice(sorted(g for g in small if g in pos))
+            ops.append(dict(k="remove", mol=nodes[g][0], gs=[g]))
+            pos.pop(g, None)
     ops.append(dict(k="snap"))
     case["ops"] = ops
     return case
@@ -1274,6 +1339,22 @@ def run(ctx):
         real_cases.append(gen_history(rng, static, rng.randint(50, 90), None, init=init, few_queries=True,
                                       prefix=lambda pos, static=static, count0=count0: multi_tree_prefix(rng, static, count0, pos)))
     run_batch(ctx, real_cases, classes, "engine-real-T")
+
+    # runs of adds without a query in between (own generator: the histories above stay what they were)
+    sub = random.Random(("add-runs", ctx.seed, ctx.pid).__repr__())
+    runs = []
+    for i in range(ctx.budget(40, 800)):
+        static = gen_static(sub)
+        T = sub.choice([0, 0, 1, 2, 3, 5]) if classes else None
+        runs.append(gen_add_runs(sub, static, T, sub.randint(3, 10)))
+    run_batch(ctx, runs, classes, "engine-add-runs")
+    if literal is not None:
+        real_runs = []
+        for i in range(ctx.budget(1, 4)):
+            count0 = literal + sub.choice([1, 2])
+            static, init = preload_static(sub, count0, 24)
+            real_runs.append(gen_add_runs(sub, static, None, sub.randint(3, 6), init=init))
+        run_batch(ctx, real_runs, classes, "engine-real-T-add-runs")
 
     # outside the protocol: correspondence only
     off = []
